@@ -553,7 +553,7 @@ pub fn fuzz_targets_of(property: &str) -> Vec<(&'static str, u64)> {
     match property {
         "C06" => vec![("markdown", 1_000_000)],
         "C07" => vec![("cram", 30_000)],
-        "C10" => vec![("update", 600_000)],
+        "C10" => vec![("update", 40_000)],
         "C11" => vec![("escape", 60_000)],
         _ => vec![],
     }
